@@ -41,6 +41,7 @@ type State struct {
 	vers     map[types.Object]int
 	spec     map[string]Val // binders, lets, ghost globals ("ghost.x")
 	hyps     []string
+	gfacts   []string // facts about immutable globals: unconditional, never wrapped by a short-circuit guard
 	defers   []*ast.CallExpr
 	path     []string
 	dead     bool
@@ -68,6 +69,7 @@ func (s *State) Clone() *State {
 		n.spec[k] = v
 	}
 	n.hyps = append([]string(nil), s.hyps...)
+	n.gfacts = append([]string(nil), s.gfacts...)
 	n.defers = append([]*ast.CallExpr(nil), s.defers...)
 	n.path = append([]string(nil), s.path...)
 	n.dead = s.dead
@@ -172,7 +174,7 @@ func (c *FnCtx) oblige(st *State, kind, label string, goal string, props []strin
 		}
 		return
 	}
-	o := &Obligation{ID: c.oblID(kind, label), Kind: kind, Func: c.fi.Key, Props: props, Hyps: append([]string(nil), st.hyps...), Goal: goal,
+	o := &Obligation{ID: c.oblID(kind, label), Kind: kind, Func: c.fi.Key, Props: props, Hyps: append(append([]string(nil), st.gfacts...), st.hyps...), Goal: goal,
 		Decls: &c.decls, Pos: c.eng.Fset.Position(c.curPos), Path: strings.Join(st.path, ";"), GoalText: goalText, Opaque: c.spec.Opaque}
 	c.obls = append(c.obls, o)
 }
